@@ -10,6 +10,8 @@ def layout_src(rng, prog):
     cur = ""
     for o in prog:
         txt = G.op_src(o)
+        if o[0] == "op" and o[2] is not None and txt.startswith(o[1] + " ") and rng.random() < 0.3:
+            txt = o[1] + "\t" + txt[len(o[1]) + 1:]          # the separator after pushN is one space OR one tab
         if "\n" in txt:          # macro definitions keep their own lines
             if cur:
                 lines.append(cur)
